@@ -505,6 +505,6 @@ impl OpSpec for BProg {
         n
     }
     fn extra_targets(&self, _pos: usize, honest: F) -> Vec<F> {
-        vec![F::ONE - honest, honest - F::ONE]
+        vec![honest - F::ONE]
     }
 }
